@@ -195,6 +195,11 @@ def run(st, tier, seed):
                 res.corr_breaks.append({"name": name, "input": rq, "model": g, "impl": im})
                 if len(res.corr_breaks) > 5:
                     break
+    # text level: the model of the PIL reader (PepperModel/ParsePil.lean, theorems PepperProps/ParsePil.lean) against the real
+    # PIL_parser.load_spec on generated, compiled and malformed documents
+    if st.driver_ok:
+        import parsecorr_pil
+        parsecorr_pil.check_texts(res, core.Driver(), parsecorr_pil.gen_texts(core.rng_for(seed, "c04-text"), 400 if tier == "quick" else 20000), "text")
     return res
 
 
